@@ -213,6 +213,15 @@ pub fn dense_footprints<S: USet>(e: &mut Eng<S>, hists: usize) {
                 e.force_style = Some(e.draw_style);
                 for &x in &seq {
                     e.op_ins(0, x);
+                    // ascending insertion passes through "exactly 0..m" for every m on the way: each is an instance
+                    if order == 1 && x + 1 >= 64 {
+                        let m = x + 1;
+                        let b = alloc::live().1 as u64;
+                        if b > m / 4 + 64 {
+                            e.fail("C12", format!("0..{} built by ascending insertion: the set owns {} heap bytes, more than 2 bits per member + 64 bytes ({})", m, b, m / 4 + 64));
+                            break;
+                        }
+                    }
                 }
             }
             let (_, bytes) = alloc::live();
@@ -238,6 +247,28 @@ pub fn dense_footprints<S: USet>(e: &mut Eng<S>, hists: usize) {
                 crate::profiles::audit(e, 0, false);
             }
             e.op_drop(0);
+        }
+        // collect() from iterators that yield members more than once still builds "exactly 0..n"
+        if n <= (1 << 18) {
+            for rep in [2u64, 3] {
+                e.begin(&format!("dense-n{}-collect-x{}-{}", n, rep, hn));
+                if quiet && e.mode != Mode::Unscripted {
+                    e.quiet = true;
+                    e.script_len = 64;
+                }
+                let seq: Vec<u64> = (0..rep).flat_map(|_| 0..n).collect();
+                e.check_c11 = true;
+                e.op_collect(0, &seq);
+                let bytes = alloc::live().1 as u64;
+                if e.slots[0].as_ref().unwrap().len() as u64 != n {
+                    e.fail("C12,C05", format!("0..{} collected from a sequence repeating it {} times: len() = {}", n, rep, e.slots[0].as_ref().unwrap().len()));
+                }
+                if bytes > n / 4 + 64 {
+                    e.fail("C12", format!("0..{} built by collect() from a sequence repeating every member {} times: the set owns {} heap bytes, more than 2 bits per member + 64 bytes ({})", n, rep, bytes, n / 4 + 64));
+                }
+                e.quiet = false;
+                e.op_drop(0);
+            }
         }
     }
 }
@@ -549,7 +580,7 @@ pub fn serde_roundtrip<S: USet>(e: &mut Eng<S>, i: usize, k: usize) {
     if S::TYPED && !cfg!(feature = "compactserde") {
         if let Some(want) = S::json_of_items(&e.slots[i].as_ref().unwrap().items()) {
             if want != js {
-                e.fail("C16", format!("the serialised form {} is not the plain member sequence {}", &js[..js.len().min(80)], &want[..want.len().min(80)]));
+                e.fail("C16", format!("the serialised form {} is not the plain member sequence {}", js.chars().take(80).collect::<String>(), want.chars().take(80).collect::<String>()));
             }
             match S::from_json(&js) {
                 Ok(b) => {
@@ -567,7 +598,7 @@ pub fn serde_roundtrip<S: USet>(e: &mut Eng<S>, i: usize, k: usize) {
     let nums = match parsed {
         Ok(n) => n,
         Err(_) => {
-            e.fail("C16,C19", format!("the serialised form is not a plain sequence of unsigned members: {}", &js[..js.len().min(80)]));
+            e.fail("C16,C19", format!("the serialised form is not a plain sequence of unsigned members: {}", js.chars().take(80).collect::<String>()));
             return;
         }
     };
@@ -624,7 +655,7 @@ pub fn serde_sequence<S: USet>(e: &mut Eng<S>, k: usize, v: &[u64]) {
                     let got: BTreeSet<u64> = b.items().into_iter().collect();
                     let want: BTreeSet<u64> = v.iter().cloned().collect();
                     if got != want || b.len() != want.len() {
-                        e.fail("C16", format!("deserialising the sequence {} gives {} members instead of its {} distinct items", &js[..js.len().min(60)], b.len(), want.len()));
+                        e.fail("C16", format!("deserialising the sequence {} gives {} members instead of its {} distinct items", js.chars().take(60).collect::<String>(), b.len(), want.len()));
                     }
                 }
                 Err(err) => e.fail("C16", format!("deserialising a plain sequence failed: {}", err)),
@@ -784,6 +815,52 @@ pub fn fixed<S: USet>(e: &mut Eng<S>, profile: &str) {
                 }
             }
             for k in 0..5 {
+                e.op_drop(k);
+            }
+        }
+    }
+    if profile == "eqops" {
+        // equal members, same table shape, different bucket order: a clone in which members are removed and re-inserted
+        // (Robin-Hood tables are not canonical: keys sharing a home slot sit in insertion order); and the member
+        // `capacity * bits` of a bitmap table, whose bucket wraps to slot 0 although it is the largest
+        for (name, vals) in [
+            ("bitmap23", (0..9u64).map(|k| 23 * [1u64, 3, 4, 5, 6, 7, 8, 12, 2][k as usize]).chain([1u64 << (S::W / 2 + 6)]).collect::<Vec<u64>>()),
+            ("bitmap-spread", (0..24u64).map(|k| 1000 + k * 977).collect()),
+            ("plain", (0..20u64).map(|k| (1u64 << (S::W - 1)) + k * 7919).chain([0u64]).collect()),
+            ("bitmap54", (1..9u64).map(|k| 54 * k).collect()),
+        ] {
+            e.begin(&format!("eq-same-shape-{}", name));
+            let vals: Vec<u64> = vals.iter().map(|&x| S::norm(x)).collect();
+            e.op_collect(0, &vals);
+            e.op_clone(1, 0);
+            for &x in vals.iter().take(6) {
+                e.op_rem(1, x);
+                e.op_ins(1, x);
+                e.op_eq(0, 1);
+            }
+            // the boundary member cap*bits (when the set is a bitmap table), against the same members in another shape
+            if let Some((_, Some((_, cap, bits, _)))) = e.slots[0].as_ref().map(|s| s.repr()) {
+                if bits > 0 && bits < S::W as u64 {
+                    let v = S::norm((cap as u64).wrapping_mul(bits));
+                    e.op_ins(0, v);
+                    let mut all: Vec<u64> = vals.clone();
+                    all.push(v);
+                    let extra = S::norm(v.wrapping_add(9 * bits).wrapping_add(1));
+                    all.push(extra);
+                    e.op_collect(2, &all);
+                    e.op_rem(2, extra);
+                    e.op_eq(0, 2);
+                    e.op_new(3);
+                    for &x in all.iter().rev() {
+                        if x != extra {
+                            e.op_ins(3, x);
+                        }
+                    }
+                    e.op_eq(0, 3);
+                    e.op_eq(2, 3);
+                }
+            }
+            for k in 0..4 {
                 e.op_drop(k);
             }
         }
